@@ -208,6 +208,9 @@ pub struct OneshotWorld<A: OneshotApi> {
     weights: [u32; NW],
     next_id: usize,
     next_tag: u32,
+    /// a burst of New / Poll pairs at the start of the run (many simultaneous waiters: batch loops)
+    burst_left: u64,
+    burst_poll: Option<usize>,
 }
 
 impl<A: OneshotApi> OneshotWorld<A> {
@@ -339,6 +342,8 @@ impl<A: OneshotApi> World for OneshotWorld<A> {
             weights,
             next_id: 0,
             next_tag: 1,
+            burst_left: cfg_get(cfg, "burst", 0).max(0) as u64,
+            burst_poll: None,
         }
     }
 
@@ -359,6 +364,16 @@ impl<A: OneshotApi> World for OneshotWorld<A> {
                 return if self.prim_alive { Some(Op::new(OP_DROP_PRIM, 0, 0, 0)) } else { None };
             }
             return Some(*rng.pick(&cands));
+        }
+        if (self.burst_left > 0 || self.burst_poll.is_some()) && self.next_id < MAX_IDS - 1 && !rxs.is_empty() {
+            if let Some(id) = self.burst_poll.take() {
+                return Some(Op::new(OP_POLL, id as u32, 0, 0));
+            }
+            self.burst_left -= 1;
+            self.next_id += 1;
+            let id = self.next_id - 1;
+            self.burst_poll = Some(id);
+            return Some(Op::new(OP_NEW, id as u32, *rng.pick(&rxs) as u32, 0));
         }
         let pollable: Vec<usize> = live.iter().copied().filter(|id| matches!(env.slots[*id].st, St::Fresh | St::Pending)).collect();
         let done: Vec<usize> = live.iter().copied().filter(|id| env.slots[*id].st == St::Done).collect();
@@ -665,6 +680,11 @@ fn draw_cfg(rng: &mut Rng) -> Cfg {
         let f = *rng.pick(&[0u32, 1, 1, 1, 2, 3]);
         c.insert(WK[i].into(), (*b * f) as i64);
     }
+    // rarely: more than 32 simultaneous waiters (typical size of a waker batch)
+    let burst = if rng.pct(4) { *rng.pick(&[33i64, 34, 40]) } else { 0 };
+    c.insert("burst".into(), burst);
+    let len0 = cfg_get(&c, "len", 32);
+    c.insert("len".into(), len0 + 2 * burst);
     c.insert("w0".into(), cfg_get(&c, "w0", 200).max(100));
     c.insert("w1".into(), cfg_get(&c, "w1", 300).max(150));
     c
